@@ -2647,6 +2647,13 @@ func (s *Server) serveConnCounted(c net.Conn, countConcurrency bool) error {
 		ctx.connRequestNum = connRequestNum
 		ctx.time = time.Now()
 
+		// The response depends on these properties of the request. They are read
+		// before the handler runs: after a timeout ctx is replaced by a fresh one
+		// (whose empty request is neither HEAD nor HTTP/1.0) while the timed out
+		// handler may still be using the old one.
+		isHead := ctx.IsHead()
+		isHTTP11 := ctx.Request.Header.IsHTTP11()
+
 		// If a client denies a request the handler should not be called
 		if continueReadingRequest {
 			s.Handler(ctx)
@@ -2659,7 +2666,7 @@ func (s *Server) serveConnCounted(c net.Conn, countConcurrency bool) error {
 			timeoutResponse.CopyTo(&ctx.Response)
 		}
 
-		if ctx.IsHead() {
+		if isHead {
 			ctx.Response.SkipBody = true
 		}
 
@@ -2687,7 +2694,7 @@ func (s *Server) serveConnCounted(c net.Conn, countConcurrency bool) error {
 			(s.CloseOnShutdown && s.stop.Load() == 1)
 		if connectionClose {
 			ctx.Response.Header.SetConnectionClose()
-		} else if !ctx.Request.Header.IsHTTP11() {
+		} else if !isHTTP11 {
 			// Set 'Connection: keep-alive' response header for HTTP/1.0 request.
 			// There is no need in setting this header for http/1.1, since in http/1.1
 			// connections are keep-alive by default.
